@@ -1,3 +1,213 @@
 package main
 
-func runSelftest(args []string) int { return 0 }
+// Must-fail / must-pass corpus: deliberate edits of /repo sources applied through go/packages overlays (nothing
+// is written to /repo). A must-fail edit has to make at least one of its named claimed obligations fail; a
+// must-pass edit (harmless refactoring) has to leave every claimed obligation discharged.
+
+import (
+	"encoding/json"
+	"flag"
+	"fmt"
+	"os"
+	"path/filepath"
+	"sort"
+	"strings"
+	"sync"
+)
+
+type mutation struct {
+	Name       string   `json:"name"`
+	Property   string   `json:"property"`
+	File       string   `json:"file"` // relative to the repository
+	Old        string   `json:"old"`
+	New        string   `json:"new"`
+	Occurrence int      `json:"occurrence,omitempty"` // 1-based; 0 = must be unique
+	ExpectFail []string `json:"expect_fail"`          // obligation names (prefix match); empty = must pass
+	Edits      []struct {
+		File       string `json:"file"`
+		Old        string `json:"old"`
+		New        string `json:"new"`
+		Occurrence int    `json:"occurrence,omitempty"`
+	} `json:"edits,omitempty"`
+}
+
+func applyEdit(src, old, new string, occ int) (string, error) {
+	n := strings.Count(src, old)
+	if n == 0 {
+		return "", fmt.Errorf("text %q not found", trunc(old, 50))
+	}
+	if occ == 0 {
+		if n != 1 {
+			return "", fmt.Errorf("text %q occurs %d times; give occurrence", trunc(old, 50), n)
+		}
+		return strings.Replace(src, old, new, 1), nil
+	}
+	idx := -1
+	pos := 0
+	for k := 0; k < occ; k++ {
+		j := strings.Index(src[pos:], old)
+		if j < 0 {
+			return "", fmt.Errorf("occurrence %d of %q not found", occ, trunc(old, 50))
+		}
+		idx = pos + j
+		pos = idx + len(old)
+	}
+	return src[:idx] + new + src[idx+len(old):], nil
+}
+
+func runSelftest(args []string) int {
+	fs := flag.NewFlagSet("selftest", flag.ExitOnError)
+	prop := fs.String("prop", "", "only this property")
+	repo := fs.String("repo", "/repo", "repository")
+	verif := fs.String("verif", "/verif", "verif dir")
+	only := fs.String("only", "", "only mutations whose name contains this")
+	par := fs.Int("j", 3, "parallel runs")
+	fs.Parse(args)
+	files, _ := filepath.Glob(filepath.Join(*verif, "selftest", "*", "*.json"))
+	sort.Strings(files)
+	var muts []mutation
+	for _, f := range files {
+		data, err := os.ReadFile(f)
+		if err != nil {
+			continue
+		}
+		var ms []mutation
+		if err := json.Unmarshal(data, &ms); err != nil {
+			var m mutation
+			if err2 := json.Unmarshal(data, &m); err2 != nil {
+				fmt.Printf("selftest: %s: %v\n", f, err)
+				return 2
+			}
+			ms = []mutation{m}
+		}
+		for _, m := range ms {
+			if m.Property == "" {
+				m.Property = filepath.Base(filepath.Dir(f))
+			}
+			if *prop != "" && m.Property != *prop {
+				continue
+			}
+			if *only != "" && !strings.Contains(m.Name, *only) {
+				continue
+			}
+			muts = append(muts, m)
+		}
+	}
+	if len(muts) == 0 {
+		fmt.Println("selftest: no mutations selected")
+		return 0
+	}
+	activeFindings = loadFindings(*verif)
+	ledger := loadLedger(*verif)
+	type res struct {
+		m      mutation
+		ok     bool
+		detail string
+	}
+	out := make([]res, len(muts))
+	var wg sync.WaitGroup
+	sem := make(chan struct{}, *par)
+	for i, m := range muts {
+		wg.Add(1)
+		sem <- struct{}{}
+		go func(i int, m mutation) {
+			defer wg.Done()
+			defer func() { <-sem }()
+			out[i] = res{m: m}
+			overlay := map[string][]byte{}
+			edits := m.Edits
+			if m.File != "" {
+				edits = append(edits, struct {
+					File       string `json:"file"`
+					Old        string `json:"old"`
+					New        string `json:"new"`
+					Occurrence int    `json:"occurrence,omitempty"`
+				}{m.File, m.Old, m.New, m.Occurrence})
+			}
+			for _, ed := range edits {
+				path := filepath.Join(*repo, ed.File)
+				src, ok := overlay[path]
+				if !ok {
+					b, err := os.ReadFile(path)
+					if err != nil {
+						out[i].detail = err.Error()
+						return
+					}
+					src = b
+				}
+				ns, err := applyEdit(string(src), ed.Old, ed.New, ed.Occurrence)
+				if err != nil {
+					out[i].detail = "edit does not apply: " + err.Error()
+					return
+				}
+				overlay[path] = []byte(ns)
+			}
+			o := checkOpts{repo: *repo, verif: *verif, prop: m.Property, tier: "quick", timeoutS: 10, overlay: overlay, quiet: true,
+				workDir: filepath.Join(*verif, "work", "selftest", sanitize(m.Property+"_"+m.Name))}
+			results, _, problems, err := runProperty(o)
+			if err != nil {
+				out[i].detail = "run failed: " + err.Error()
+				return
+			}
+			ent := ledger[m.Property]
+			claimed := map[string]bool{}
+			if ent != nil {
+				for _, n := range ent.Claimed {
+					claimed[n] = true
+				}
+			}
+			generated := map[string]bool{}
+			var failed []string
+			for _, r := range results {
+				for _, ob := range r.ctx.obligations {
+					generated[ob.Name] = true
+					if claimed[ob.Name] && !obOK(ob) {
+						failed = append(failed, ob.Name)
+					}
+				}
+				for _, s := range r.ctx.anchorErrs {
+					failed = append(failed, "spec:"+s)
+				}
+			}
+			for n := range claimed {
+				if !generated[n] {
+					failed = append(failed, n+" (not generated)")
+				}
+			}
+			for _, p := range problems {
+				failed = append(failed, "problem:"+p)
+			}
+			sort.Strings(failed)
+			if len(m.ExpectFail) == 0 {
+				out[i].ok = len(failed) == 0
+				out[i].detail = fmt.Sprintf("must-pass: %d failed %v", len(failed), failed)
+				return
+			}
+			hit := false
+			for _, f := range failed {
+				for _, want := range m.ExpectFail {
+					if strings.HasPrefix(f, want) {
+						hit = true
+					}
+				}
+			}
+			out[i].ok = hit
+			out[i].detail = fmt.Sprintf("must-fail: failed=%v", failed)
+		}(i, m)
+	}
+	wg.Wait()
+	bad := 0
+	for _, r := range out {
+		mark := "ok  "
+		if !r.ok {
+			mark = "FAIL"
+			bad++
+		}
+		fmt.Printf("%s %s/%s  %s\n", mark, r.m.Property, r.m.Name, trunc(r.detail, 600))
+	}
+	fmt.Printf("selftest: %d mutations, %d not as expected\n", len(out), bad)
+	if bad > 0 {
+		return 1
+	}
+	return 0
+}
